@@ -37,8 +37,8 @@ def isCarver (k : Kind) : Bool := k == .binaryCarver || k == .continuousCarver |
 
 /-- the guards of `fit`, in the order the code runs them: (does the guard fire?, its message).
     `_check_is_not_fitted` comes first, then `_prepare_data(X, y)`, `_prepare_data(X_dev, y_dev)`,
-    the target checks of the carver, the numeric check of quantitative features and the check of
-    ordinal values against their ranking. -/
+    the target checks of the carver, the check of ordinal values against their ranking and the
+    numeric check of quantitative features. -/
 def guards (k : Kind) (c : Call) : List (Bool × String) :=
   [ (c.alreadyFitted, "already fitted"),
     (!c.xIsFrame, "X must be a pandas.DataFrame"),
@@ -52,8 +52,9 @@ def guards (k : Kind) (c : Call) : List (Bool × String) :=
     (k == .binaryCarver && !(c.yIsZeroOne && c.nClasses == 2), "y must be a binary Series"),
     (k == .continuousCarver && !(decide (c.nClasses > 2) && !c.yHasStrings), "y must be a continuous Series"),
     (k == .multiclassCarver && !(decide (c.nClasses > 2)), "provided y is binary"),
-    (k != .qualitative && c.strInQuant, "Non-numeric features"),
-    (k != .quantitative && c.outsideRanking, "Unexpected value") ]
+    -- (`Discretizer.fit` runs the qualitative pipeline before the quantitative one)
+    (k != .quantitative && c.outsideRanking, "Unexpected value"),
+    (k != .qualitative && c.strInQuant, "Non-numeric features") ]
 
 inductive Outcome where
   | accepted
